@@ -161,11 +161,31 @@ prop('C15',
 PROPERTIES['C10']['functions'] += REDIFF
 PROPERTIES['C07']['functions'] += REDIFF
 
+BOWL_LISTS = [('/pwr/bowl', '(*overlayBowl).markMove'), ('/pwr/bowl', '(*overlayBowl).markOverlay'), ('/pwr/bowl', '(*overlayBowl).GetWriter')]
+HEALER = [('/pwr', '(*ArchiveHealer).Do$4'), ('/pwr', 'NewHealer')]
+PROPERTIES['C06']['functions'] += HEALER
+PROPERTIES['C06']['not_decided'] = 'the healing worker (heal / healOne: that the zip entry written is the signed content; ctxcopy under C15); the interleaving of validator and healer on the same tree; the resulting directory as a whole; FILE wounds are only proved to be queued at most once'
+
+prop('C02',
+     functions=BOWL_LISTS + [('/pwr/bowl', '(*overlayBowl).ensureDirsAndSymlinks$1')] + OVERLAY + OVERLAY_ENTRY,
+     assumes=['A-FS: ghost model of the entry at one path (nothing / directory / other) with in-context contracts of screw.Lstat, RemoveAll, MkdirAll',
+              'fspool.GetPath(stagePool, i) lies in the stage folder (the pool was built over StageFolder in NewOverlayBowl: not under contract)',
+              'A-POOL; everything C14 assumes for the overlay stream'],
+     not_decided='the commit phase as a whole: applyTranspositions (clash-free renames over map iteration orders), applyMoves, applyOverlays + truncation, deleteGhosts -- relations between whole directory trees over all path-level shapes and all map orders are not expressible as function contracts within reach of this engine (no file-system tree model); "the old build is untouched until Commit" is proved only as: every entry writer handed out during patching is given the stage path of its file, and overlay writers read the old file through the read-only pool')
+
+prop('C03',
+     functions=BOWL_LISTS + OVERLAY_ENTRY + WIRE_ALL + PATCHER + PATCHER_SERIES + [('/pwr/overlay', 'NewOverlayWriter'), ('/pwr/overlay', '(*overlayWriter).Finalize'), ('/pwr/overlay', '(*OverlayPatchContext).Patch')],
+     assumes=['A-SAVIOR, A-COMP, A-PROTO, A-IO as in C13', 'A-FS: OpenFile without O_TRUNC keeps the bytes already on disk; Seek positions absolutely',
+              'patcher functions are verified for a fresh start; the checkpoint handed to a new patcher is a serialized copy of one the patcher produced (gob round trip outside /repo)'],
+     not_decided='the property itself quantifies over crash points, save schedules and partially persisted writes: no function contract states "resume from checkpoint k after a crash at any later point equals the uninterrupted run" -- that needs a crash/persistence model relating disk state to checkpoints, which this family does not have here.  What is decided are the per-layer obligations the argument rests on: wire save protocol and Resume offsets (C13), entry writers flush+sync before reporting offsets and reopen without truncation at exactly those offsets, overlay stream self-terminated and header only at offset 0 (C14), bowl work lists stay duplicate-free sets when a file is re-processed, no stale per-file checkpoint enters the next file.  Fresh-bowl entry writers, Transpose de-duplication, gob registration and decompressor checkpoints are not under contract')
+
 # properties with a registered check
-CLAIMED = {'C15', 'C19', 'C18', 'C04', 'C09', 'C17', 'C11', 'C08', 'C01', 'C10', 'C12', 'C07', 'C14', 'C13', 'C05', 'C16', 'C06'}
+CLAIMED = {'C02', 'C03', 'C15', 'C19', 'C18', 'C04', 'C09', 'C17', 'C11', 'C08', 'C01', 'C10', 'C12', 'C07', 'C14', 'C13', 'C05', 'C16', 'C06'}
 # reasons for properties not claimed (kept current)
 NOT_APPLICABLE = {}
 LEVEL_TEXT = {
+ 'C02': {'text': 'Proof of function-level clauses only (the commit phase is not decided): every entry writer handed out while patching gets the stage path of its file; existing paths are listed for an overlay (reading the old content at the index of the same path), new paths for a move; the work lists stay duplicate-free; processDir leaves a real directory (judged by Lstat of the path itself) or fails; the overlay stream clauses of C14.', 'design_ref': 'DESIGN.md §5 C02'},
+ 'C03': {'text': 'Proof of the per-layer obligations only (the crash/resume equivalence itself is not decided): wire save protocol and resume offsets (C13), entry-writer checkpoints exact after flush+sync and resumed at exactly those offsets without truncation, overlay stream header/terminator (C14), duplicate-free bowl work lists on re-processing, per-file checkpoint state cleared before the next file, stream-grammar consumption of the patcher (C17).', 'design_ref': 'DESIGN.md §5 C03'},
  'C15': {'text': 'Proof of the function-level clauses: the three per-file tasks of WritePatch share no written variable and use different sync contexts and different wire contexts (ownership obligations over the fork group, pointer distinctness by SMT); the reader handed to the fan-out is the one of the file being diffed; the copy loop forwards every byte read, including bytes delivered together with io.EOF, and stops on cancellation.', 'design_ref': 'DESIGN.md §5 C15'},
  'C19': {'text': 'Proof of the function-level clauses: every variable shared by the extraction workers is accessed under the common mutex (ownership obligations over the fork group); the resume file is only written with an index below which every entry has completed (markDone invariant: nextIndex advances over a contiguous completed prefix); Mkdir creates the whole path (os.MkdirAll with the destination path, never os.Mkdir); the tar walk emits a header for every regular file other than the root, empty or not; ctxcopy.DoBuffer reports the bytes written and stops on cancellation.', 'design_ref': 'DESIGN.md §5 C19'},
  'C18': {'text': 'Proof (modular, unbounded in write slicing and sizes): drip.Write/Close keep the ghost relation between accepted, validated and forwarded bytes for every slicing; the validate closure advances the block index once per call and emits one wound per call; ValidateAsWound/AsError decide exactly healthyBlock and report the signed block range.', 'design_ref': 'DESIGN.md §5 C18, App. A.2'},
@@ -181,6 +201,6 @@ LEVEL_TEXT = {
  'C13': {'text': 'Proof of wharf\'s side: a message is written as uvarint(len) then body with a large-enough varint buffer; ReadMessage consumes at least one byte, never more than the stream holds, regrows its buffer to at least the declared length, and resets the message before decoding on every path; the reader offset counts every delivered byte; the three-state save protocol (ask only from idle, keep the checkpoint given, pop exactly once with Offset = reader offset); Resume leaves reader and source at checkpoint.Offset (discarding the gap, rejecting a source that resumed later) and resets the save state; no compressor is involved exactly when the algorithm is NONE.', 'design_ref': 'DESIGN.md §5 C13'},
  'C05': {'text': 'Proof of the function-level clauses: kind checks do not follow symlinks; a missing / not-a-directory entry is a wound, never a plain error; every wound offered for a file names it and has 0 <= Start <= End; a byte count different from the signed size is always wounded (shorter or longer); the aggregator never loses coverage and flushes before closing; the fail-fast consumer returns nil only after a clean closed stream; block verdicts decide exactly hash equality over the signed block range.', 'design_ref': 'DESIGN.md §5 C05'},
  'C16': {'text': 'Proof of the safety half and of the local protocol obligations: nil from the fail-fast consumer only after the stream was closed without a wound (never on cancellation); an error from worker or consumer is returned; the result channel taken from is the one re-armed; the wound stream is closed only after the worker finished; the consumer goroutine sends one result and then drains until closed; wounds are offered in a select with cancelled.', 'design_ref': 'DESIGN.md §5 C16'},
- 'C06': {'text': 'Proof of clause (i) only: in the directory, symlink and file passes a deviation (missing entry, parent not a directory, wrong kind, wrong size) leads to a wound, not to a returned error. The healer is not under contract.', 'design_ref': 'DESIGN.md §5 C06'},
+ 'C06': {'text': 'Proof of clause (i) and of the wound handler: in the directory, symlink and file passes a deviation (missing entry, parent not a directory, wrong kind, wrong size) leads to a wound, not to a returned error; a DIR wound handled without error leaves a real directory at the path (judged without following links), a SYMLINK wound the wanted link, a FILE wound is queued at most once; the healer spec is split at the first comma only. The healing worker is not under contract.', 'design_ref': 'DESIGN.md §5 C06'},
  'C04': {'text': 'Proof of the function-level clauses: split function cases, one hash per scanned block plus the empty-file entry with correct index/short size, hash grouping by prefix sums of per-file hash counts (ComputeHashInfo, incl. error iff count differs), block validator verdicts; rolling/from-scratch weak hash equals the recursive specification.', 'design_ref': 'DESIGN.md §5 C04'},
 }
